@@ -580,8 +580,10 @@ namespace cgi {
 				return;
 			}
 			for(;;){
-				if(header_.type!=fcgi_params || header_.request_id!=request_id_)
+				if(header_.type!=fcgi_params || header_.request_id!=request_id_) {
 					h(booster::system::error_code(errc::protocol_violation,cppcms_category));
+					return;
+				}
 				if(header_.content_length!=0) { // eof
 					if(body_.size() < 16384) { 
 						if(non_blocking_read_record()) {
